@@ -1,6 +1,8 @@
 import AvroModel.Lemmas.ReadOk
 import AvroModel.Lemmas.BuildOk
 import AvroModel.Lemmas.NoPanic
+import AvroModel.Lemmas.ReadBudget
+import AvroModel.Props.C07
 /-!
 # C03 — Reader decodes every spec-legal encoding of a datum to that datum
 
@@ -41,6 +43,32 @@ theorem misfit_is_error (c : Codec) (a : ASchema) (hcf : CodecFor c a) (n m : Na
   have := (readOkAt env n).read m c a p v bs rest dst hcf he
   rw [hfit] at this; exact this
 
+/-- **Main theorem with an explicit step budget.** As `decode`, for every step budget
+`n ≥ readBudget c v = Codec.sz c + 2 * Value.sz v + 2` — a function of the codec tree and the datum only
+(not of the writer's plan, the destination or the trailing input). The result is exact: the datum's
+value and exactly `rest` when the datum fits (`ofAvro … = .ok g`), `.err` when it does not
+(`.misfit`); for combinations typing excludes (`.illtyped`) the call still finishes (`≠ .fuel`).
+`ReadExact` spells out these three cases; no alternative "out of budget" remains. -/
+theorem decode_budget (reg : Reg) (hreg : ∀ id, reg.custom id = none) (nb fa n m : Nat)
+    (s : Schema) (T : Option GoType) (oe : Bool) (c : Codec) (a : ASchema)
+    (p : Plan) (v : Value) (bs rest : Bytes) (dst : GoVal)
+    (hb : buildCodec reg nb s T oe = .ok c) (hc : classify fa s = some a) (he : encode p a v = some bs)
+    (hn : readBudget c v ≤ n) :
+    ReadExact (read env n c (bs ++ rest) dst) (ofAvro env m c v dst) rest :=
+  read_budget_spec env ((buildOkAt reg hreg nb).build s T oe c hb fa a hc) he hn rest m dst
+
+/-- the datum fits: the value and the exact remainder are returned -/
+theorem decode_ok_budget (c : Codec) (a : ASchema) (hcf : CodecFor c a) (n m : Nat) (p : Plan) (v : Value) (bs rest : Bytes)
+    (dst g : GoVal) (he : encode p a v = some bs) (hfit : ofAvro env m c v dst = .ok g) (hn : readBudget c v ≤ n) :
+    read env n c (bs ++ rest) dst = .ok (g, rest) :=
+  read_exact env hcf he hn rest hfit
+
+/-- the datum does not fit the Go field: an error -/
+theorem misfit_is_error_budget (c : Codec) (a : ASchema) (hcf : CodecFor c a) (n m : Nat) (p : Plan) (v : Value) (bs rest : Bytes)
+    (dst : GoVal) (he : encode p a v = some bs) (hfit : ofAvro env m c v dst = .misfit) (hn : readBudget c v ≤ n) :
+    read env n c (bs ++ rest) dst = .err :=
+  read_misfit env hcf he hn rest hfit
+
 /-- an integer that does not fit the destination width is a misfit -/
 theorem int_out_of_range (m w : Nat) (o : Bool) (i : Int) (dst : GoVal) (h : ¬ inRange w i) :
     ofAvro env (m + 1) (.int w o) (.int i) dst = .misfit := by
@@ -65,5 +93,143 @@ example :
       (.union [.array .long, .null]) (.union 0 (.array [.int 1, .int (-1), .int 64])) =
       some [0, 1, 2, 2, 4, 1, 0x80, 0x01, 0] := by
   simp [encode, encodeItems, encBlocks, writeVarint, zigzag, putUvarint, inRange, Plan.leaf]
+
+/-- non-vacuity of `decode_ok_budget`: that encoding read into an empty slice with budget
+`readBudget = 2 + 2 * 5 + 2 = 14`, whatever follows -/
+example (rest : Bytes) :
+    read env 14 (.unionOne (.array (.int 64 false) false) 0) ([0, 1, 2, 2, 4, 1, 0x80, 0x01, 0] ++ rest) (.slice []) =
+      .ok (.slice [.int 1, .int (-1), .int 64], rest) :=
+  decode_ok_budget env _ (.union [.array .long, .null]) (.unionOne0 (.array .intL)) 14 4
+    (.node [] [.node [(1, true), (2, false)] [.leaf, .leaf, .leaf]]) (.union 0 (.array [.int 1, .int (-1), .int 64])) _ rest _ _
+    (by simp [encode, encodeItems, encBlocks, writeVarint, zigzag, putUvarint, inRange, Plan.leaf])
+    (by simp [ofAvro, mapFit, inRange])
+    (by simp [readBudget, Codec.sz, Value.sz, Value.szList])
+
+/-- non-vacuity of `misfit_is_error_budget`: 300 does not fit an `int8` field -/
+example (rest : Bytes) : read env 2 (.int 8 false) ([0xd8, 0x04] ++ rest) (.int 0) = .err :=
+  misfit_is_error_budget env _ .long .intL 2 1 .leaf (.int 300) _ rest _
+    (by simp [encode, writeVarint, zigzag, putUvarint, inRange])
+    (by simp [ofAvro, inRange])
+    (by simp [readBudget, Codec.sz, Value.sz])
+
+/-! ### Whole files: any partition into file blocks, any of the three compression codecs -/
+
+/-- one record of a file: a datum, the writer's plan for it, its encoding, and the Go value it denotes -/
+structure Rec where
+  v : Value
+  p : Plan
+  b : Bytes
+  g : GoVal
+
+/-- the record decoder of a file whose schema builds codec `c`: `Codec.Read` into a zeroed
+destination, with the FIXED step budget `N` for every record -/
+def recDecoder (N : Nat) (c : Codec) : File.RecCodec GoVal :=
+  { decode := fun bs => read env N c bs (Codec.zero env c) }
+
+/-- the file block holding the records `blk`, stored as `compress` of the concatenated encodings -/
+def recBlk (compress : Bytes → Bytes) (blk : List Rec) : File.Blk GoVal :=
+  { recs := blk.map (fun r => (r.g, r.b)), junk := [], payload := compress (blk.map (·.b)).flatten }
+
+/-- **C03, whole files.** Let `c` be a codec the library builds for schema `s`, and `part` ANY grouping
+(a list of lists: empty groups and any group sizes allowed) of records, each a legal encoding `r.b`
+(any plan `r.p`) of a datum `r.v` of `s` whose value for the zeroed destination is `r.g`. Store each
+group as a block compressed by any `compress` that the reader's decompressor for the header's codec
+(`null`, `deflate` or `snappy`) undoes, after any valid header whose schema builds the decoder
+`recDecoder env N c`, where the single step budget `N` is at least every record's
+`readBudget c r.v` (for instance `readBudgetList c` of all the data). Then `readFile` delivers exactly
+the values `r.g`, in file order, and succeeds. Side conditions: the compressed blocks and the record
+counts are representable (`maxLen`, `2^63`), the reader's block budget `fuel` exceeds the number of
+blocks. No hypothesis mentions `.fuel` or the decodability of any byte string. -/
+theorem file_decode (c : Codec) (s : ASchema) (hcf : CodecFor c s) (m N : Nat) (part : List (List Rec))
+    (henc : ∀ blk ∈ part, ∀ r ∈ blk, encode r.p s r.v = some r.b)
+    (hfit : ∀ blk ∈ part, ∀ r ∈ blk, ofAvro env m c r.v (Codec.zero env c) = .ok r.g)
+    (hN : ∀ blk ∈ part, ∀ r ∈ blk, readBudget c r.v ≤ N)
+    {ε : Type} {X : File.Ext GoVal} {fuel : Nat} {hdr : Bytes} {H : File.Header} {sel : File.CodecSel}
+    (hh : File.ValidHeader X fuel hdr H sel (recDecoder env N c))
+    (compress : Bytes → Bytes) (hcomp : ∀ x, File.decompress X sel (compress x) = .ok x)
+    (hsmall : ∀ blk ∈ part, (compress (blk.map (·.b)).flatten).length ≤ File.maxLen)
+    (hcount : ∀ blk ∈ part, blk.length < 2 ^ 63) (hfuel : part.length < fuel)
+    (cb : Nat → Option ε) (hcb : ∀ i, cb i = none) :
+    File.readFile X fuel cb (hdr ++ File.body H.sync (part.map (recBlk compress))) =
+      ⟨part.flatten.map (·.g), .ok⟩ := by
+  have hv : File.ValidFile X fuel hdr H sel (recDecoder env N c) (part.map (recBlk compress)) :=
+    { toValidHeader := hh
+      blocks := by
+        intro b hb
+        obtain ⟨blk, hblk, rfl⟩ := List.mem_map.mp hb
+        refine ⟨?_, ?_, ?_, ?_⟩
+        · simp only [recBlk, File.Blk.data, List.map_map, Function.comp_def, List.append_nil]
+          exact hcomp _
+        · intro ve hve rest
+          simp only [recBlk, List.mem_map] at hve
+          obtain ⟨r, hr, rfl⟩ := hve
+          exact read_exact env hcf (henc blk hblk r hr) (hN blk hblk r hr) rest (hfit blk hblk r hr)
+        · exact hsmall blk hblk
+        · simp only [recBlk, List.length_map]; exact hcount blk hblk
+      fuel := by simp only [List.length_map]; exact hfuel }
+  have hvals : File.allVals (part.map (recBlk compress)) = part.flatten.map (·.g) := by
+    clear hv henc hfit hN hsmall hcount hfuel
+    induction part with
+    | nil => simp [File.allVals]
+    | cons b bs ih =>
+      simp only [File.allVals, List.map_cons, List.flatMap_cons, List.flatten_cons, List.map_append] at ih ⊢
+      rw [ih]
+      simp [recBlk, File.Blk.vals, List.map_map, Function.comp_def]
+  rw [← hvals]
+  exact C07.delivers hv cb hcb
+
+/-- the budget of a whole file: the maximum of the records' budgets suffices for every record -/
+theorem file_budget_of_list (c : Codec) (N : Nat) (part : List (List Rec))
+    (h : readBudgetList c (part.flatten.map (·.v)) ≤ N) : ∀ blk ∈ part, ∀ r ∈ blk, readBudget c r.v ≤ N := by
+  intro blk hblk r hr
+  refine Nat.le_trans (readBudget_le_list ?_) h
+  exact List.mem_map.mpr ⟨r, List.mem_flatten.mpr ⟨blk, hblk, hr⟩, rfl⟩
+
+/-! Non-vacuity of `file_decode`: arrays of longs; three records (a size-prefixed block, an empty
+array, a two-block array) grouped as `[[r1, r2], [], [r3]]` (an empty file block included), stored
+with a toy "deflate" (`compress` = reverse, undone by the reader's `inflate`), decoded with the
+single budget `9 = readBudget` of the largest record. -/
+
+def exC : Codec := .array (.int 64 false) false
+def exR1 : Rec := ⟨.array [.int 1], .node [(1, true)] [.leaf], [1, 2, 2, 0], .slice [.int 1]⟩
+def exR2 : Rec := ⟨.array [], .node [] [], [0], .slice []⟩
+def exR3 : Rec := ⟨.array [.int 2, .int 3], .node [(1, false), (1, false)] [.leaf, .leaf], [2, 4, 2, 6, 0], .slice [.int 2, .int 3]⟩
+def exPart : List (List Rec) := [[exR1, exR2], [], [exR3]]
+def exXd : File.Ext GoVal :=
+  { inflate := fun c => some c.reverse, unsnappy := fun c => some c, crc := fun _ => 0,
+    build := fun _ => some (recDecoder env 9 exC) }
+def exHdrD : Bytes := File.mkHeader [[(File.kSchema, [0x22]), (File.kCodec, File.vDeflate)]] C07.exSync
+
+theorem mem_exPart {P : Rec → Prop} (h1 : P exR1) (h2 : P exR2) (h3 : P exR3) : ∀ blk ∈ exPart, ∀ r ∈ blk, P r := by
+  intro blk hblk r hr
+  simp only [exPart, List.mem_cons, List.not_mem_nil, or_false] at hblk
+  rcases hblk with rfl | rfl | rfl
+  · simp only [List.mem_cons, List.not_mem_nil, or_false] at hr
+    rcases hr with rfl | rfl <;> assumption
+  · simp at hr
+  · simp only [List.mem_cons, List.not_mem_nil, or_false] at hr
+    subst hr; assumption
+
+example : File.readFile (exXd env) 5 (fun _ => (none : Option Unit))
+    (exHdrD ++ File.body C07.exSync (exPart.map (recBlk List.reverse))) =
+    ⟨[.slice [.int 1], .slice [], .slice [.int 2, .int 3]], .ok⟩ := by
+  have hh : File.ValidHeader (exXd env) 5 exHdrD
+      { «meta» := File.metaOf [[(File.kSchema, [0x22]), (File.kCodec, File.vDeflate)]], sync := C07.exSync } .deflate
+      (recDecoder env 9 exC) := by
+    refine C07.valid_mkHeader (exXd env) _ C07.exSync 5 ?_ (by decide) (by decide) .deflate _ (by decide) ⟨[0x22], by decide, rfl⟩
+    intro es hes
+    simp only [List.mem_singleton] at hes
+    subst hes
+    refine ⟨by simp, by decide, ?_⟩
+    intro kv hkv
+    simp only [List.mem_cons, List.not_mem_nil, or_false] at hkv
+    rcases hkv with rfl | rfl <;> exact ⟨by decide, by decide⟩
+  exact file_decode env exC (.array .long) (.array .intL) 2 9 exPart
+    (mem_exPart (by decide +kernel) (by decide +kernel) (by decide +kernel))
+    (mem_exPart (by simp [exR1, exC, ofAvro, mapFit, inRange, Codec.zero]) (by simp [exR2, exC, ofAvro, mapFit, Codec.zero])
+      (by simp [exR3, exC, ofAvro, mapFit, inRange, Codec.zero]))
+    (mem_exPart (by decide +kernel) (by decide +kernel) (by decide +kernel))
+    hh List.reverse (fun x => by simp [File.decompress, exXd])
+    (by decide +kernel) (by decide +kernel) (by decide) _ (fun _ => rfl)
 
 end Avro.C03
